@@ -81,6 +81,10 @@ class HistSpec(Spec):
             from .engines import conc
 
             return conc.ConcRun(prop, conc.make_config(prop, seed, tier), tag=tag).run()
+        if prop == "C07" and seed % 23 == 7:
+            from .engines import bigsync
+
+            return bigsync.BigSyncRun(bigsync.make_config(seed, tier), tag=tag).run()
         if prop == "C09" and seed % 5 == 0:
             from .engines import sched
 
@@ -105,6 +109,10 @@ class HistSpec(Spec):
             from .engines import conc
 
             return conc.ConcRun(doc["prop"], doc["cfg"], plan=doc["plan"], tag=tag).run()
+        if doc.get("engine") == "bigsync":
+            from .engines import bigsync
+
+            return bigsync.BigSyncRun(doc["cfg"], tag=tag).run()
         if doc.get("engine") == "sched":
             from .engines import sched
 
@@ -113,7 +121,7 @@ class HistSpec(Spec):
 
     # -- aggregation ---------------------------------------------------------
     def nontrivial_keys(self, res):
-        if res.get("engine") in ("sched", "conc"):
+        if res.get("engine") in ("sched", "conc", "bigsync"):
             return []
         nt = res.get("nontrivial") or {}
         p = self.prop
@@ -143,7 +151,7 @@ class HistSpec(Spec):
         return [ops_digest(res.get("ops", []))] if ok else []
 
     def sample(self, res):
-        if res.get("engine") in ("store", "sched", "conc"):
+        if res.get("engine") in ("store", "sched", "conc", "bigsync"):
             return None
         ops = res.get("ops", [])
         short = []
@@ -208,7 +216,7 @@ class HistSpec(Spec):
         }
 
     def minimise(self, prop, v, res, farm):
-        if res.get("engine") in ("sched", "conc"):
+        if res.get("engine") in ("sched", "conc", "bigsync"):
             return self.replay_doc(prop, v, res)
         want = (v["oracle"], json.dumps(v["sig"], sort_keys=True))
         cfg = dict(res["cfg"])
